@@ -27,6 +27,17 @@ static inline void vstr_assign(vstr* s, const char* p, size_t n) {
   for (size_t i = 0; i < n; ++i) s->data[i] = p[i];
   s->size = n; s->data[n] = 0;
 }
+/* std::string::compare(pos, len, cstr): <0, 0, >0 like the library (lexicographic, then by length) */
+static inline int vstr_compare(const vstr* s, size_t pos, size_t n, const char* p) {
+  __CPROVER_assert(pos <= s->size, "std::string::compare: pos <= size() (else std::out_of_range)");
+  if (n > s->size - pos) n = s->size - pos;
+  size_t i = 0;
+  for (; i < n; ++i) {
+    if (p[i] == 0) return 1;
+    if ((unsigned char)s->data[pos + i] != (unsigned char)p[i]) return (unsigned char)s->data[pos + i] < (unsigned char)p[i] ? -1 : 1;
+  }
+  return p[i] == 0 ? 0 : -1;
+}
 static inline void vstr_erase(vstr* s, size_t pos, size_t n) {
   __CPROVER_assert(pos <= s->size, "std::string::erase: pos <= size() (else std::out_of_range)");
   if (n > s->size - pos) n = s->size - pos;
